@@ -35,6 +35,15 @@ _re_ident_or_num = re.compile(r'''(?x)
 ''')
 
 
+# Characters that cannot (or should not) appear verbatim in a string
+# literal: the remaining C0/C1 control characters and the bidirectional
+# formatting characters, which the lexer rejects unless escaped.
+_re_unprintable = re.compile(
+    r'[\u0000-\u0007\u000B\u000E-\u001F\u007F-\u009F'
+    r'\u202A-\u202E\u2066-\u2069]'
+)
+
+
 def escape_string(s: str) -> str:
     # characters escaped according to
     # https://www.edgedb.com/docs/reference/edgeql/lexical#strings
@@ -49,6 +58,11 @@ def escape_string(s: str) -> str:
     result = result.replace('\n', '\\n')
     result = result.replace('\r', '\\r')
     result = result.replace('\t', '\\t')
+
+    # everything else that is not printable goes as \uXXXX (\xXX is
+    # only accepted by the lexer for non-null ASCII)
+    result = _re_unprintable.sub(
+        lambda m: '\\u%04x' % ord(m.group(0)), result)
 
     return result
 
